@@ -33,6 +33,15 @@ def quad(a, b, den, d):
     return {"a": a, "b": b, "den": den, "txt": txt}
 
 
+def relation_rank(qs):
+    import sympy
+    primes = sorted({p for q in qs for n in (abs(q.numerator), q.denominator) for p in sympy.factorint(n)})
+    if not primes:
+        return len(qs)
+    M = sympy.Matrix([[sympy.multiplicity(p, abs(q.numerator)) - sympy.multiplicity(p, q.denominator) for p in primes] for q in qs])
+    return len(qs) - M.rank()
+
+
 def lists_rational(rng, quick):
     out = []
     for k in (1, 2, 3):
@@ -50,7 +59,17 @@ def lists_rational(rng, quick):
     towers = [{"d": 1, "bases": [rat(x) for x in c]} for c in itertools.product(TOWER, repeat=3)]
     rng.shuffle(towers)
     fx = [{"d": 1, "bases": [rat(x) for x in c]} for c in fixed]
-    return fx + out[:(110 if quick else 2500)] + towers[:(50 if quick else 2744)]
+    # lists of length 4: relations that need all four bases, units next to towers, repeated bases
+    MENU4 = [2, 3, 4, 6, 9, 12, F(1, 2), F(2, 3), F(3, 2), F(1, 6), -1, -2, -3, 1, 5, 10, F(4, 9), 18]
+    fours = [{"d": 1, "bases": [rat(x) for x in c]} for c in
+             [[2, 3, 6, 12], [2, 3, 5, 30], [-2, -3, 6, -1], [F(2, 3), F(3, 2), 6, 1], [2, 2, 3, 3], [4, 9, 6, 36],
+              [2, F(1, 3), F(2, 3), 5], [-1, 2, -2, 4], [10, 2, 5, F(1, 10)], [12, 18, 2, 3]]]
+    sample4 = [{"d": 1, "bases": [rat(x) for x in rng.sample(MENU4, 4)]} for _ in range(12 if quick else 400)]
+    sample4 += [{"d": 1, "bases": [rat(rng.choice(MENU4)) for _ in range(4)]} for _ in range(8 if quick else 300)]
+    # the relation lattice of rationals has rank k - rank(prime multiplicity matrix); lists of rank > 2 are left out
+    # (spec/ExpLattice.tla decides independence up to three vectors and the span search is cubic in the coefficient box)
+    fours = [l for l in fours + sample4 if relation_rank([F(b["a"], b["den"]) for b in l["bases"]]) <= 2]
+    return fx + out[:(110 if quick else 2500)] + towers[:(50 if quick else 2744)] + fours
 
 
 def lists_quadratic(rng, quick):
@@ -129,7 +148,7 @@ def main(tier, seed):
                 l["refused"] = o.get("exc")
                 continue
             k = len(l["bases"])
-            Bx = 6 if k <= 2 else (5 if quick else 6)
+            Bx = 6 if k <= 2 else ((5 if quick else 6) if k == 3 else (4 if quick else 5))
             basis = o["basis"]
             # coefficient box: large enough for every vector of the scanned box if the basis is right
             Cx = 1
@@ -193,6 +212,6 @@ def main(tier, seed):
                 "lists_with_nontrivial_relations": nontrivial, "lists_with_failures": nfail,
                 "exponent_vectors_scanned": sum(v["scanned"] for v in verdicts.values()),
                 "exhaustive": False}
-    return run.finish(coverage, ["completeness is decided inside the box [-B,B]^k only (B = 6 for k <= 2, 5 or 6 for k = 3)",
+    return run.finish(coverage, ["completeness is decided inside the box [-B,B]^k only (B = 6 for k <= 2, 5 or 6 for k = 3, 4 or 5 for k = 4)",
                                  "bases are rationals, Gaussian numbers, and elements of Q(sqrt 2), Q(sqrt 5); other algebraic numbers are not covered",
-                                 "base lists beyond the fixed ones are a seeded sample of all lists of length <= 3 over the stated menus"])
+                                 "base lists beyond the fixed ones are a seeded sample of all lists of length <= 3 (rational lists: <= 4) over the stated menus"])
